@@ -106,7 +106,17 @@ fn run_climber(levels: &Levels, toks: &[u8]) -> Result<Tree, String> {
             op
         }).collect();
         let c = PrecClimber::new(ops);
-        c.climb(pairs_of(&input, toks), |p| Tree::Prim(rule_of(&p)), |l, o, r| Tree::Inf(Box::new(l), rule_of(&o), Box::new(r)))
+        let t = c.climb(pairs_of(&input, toks), |p| Tree::Prim(rule_of(&p)), |l, o, r| Tree::Inf(Box::new(l), rule_of(&o), Box::new(r)));
+        // the const constructor (feature const_prec_climber) borrows a static table whose entries may come in any order
+        let flat: Vec<(R, u32, CAssoc)> = levels.iter().enumerate().flat_map(|(i, lvl)| lvl.iter().map(move |(r, a)| (R(*r), i as u32 + 1, if *a == Aff::L { CAssoc::Left } else { CAssoc::Right }))).collect();
+        for variant in 0..3 {
+            let mut v = flat.clone();
+            match variant { 1 => v.reverse(), 2 => v.sort_by(|a, b| (b.0).0.cmp(&(a.0).0)), _ => {} }
+            let st: &'static [(R, u32, CAssoc)] = Box::leak(v.into_boxed_slice());
+            let t2 = PrecClimber::new_const(st).climb(pairs_of(&input, toks), |p| Tree::Prim(rule_of(&p)), |l, o, r| Tree::Inf(Box::new(l), rule_of(&o), Box::new(r)));
+            if show(&t2) != show(&t) { panic!("PrecClimber::new_const (table order {}) builds {} where PrecClimber::new builds {}", variant, show(&t2), show(&t)); }
+        }
+        t
     })
 }
 
